@@ -4,6 +4,8 @@ transforms `WeakH`. -/
 namespace RustCc
 open World
 
+variable {ex : Bool}
+
 /-! ### `wrefs` is not changed by the helpers that move no `Weak` -/
 
 @[simp] theorem wrefs_emit (w : World) (e : Event) (x : Id) : wrefs (w.emit e) x = wrefs w x := rfl
@@ -22,31 +24,52 @@ open World
 
 /-! ### The master lemma: one identity changes, the others do not get worse -/
 
-theorem WeakH.step1 {w w' : World} {E E' : List Id} (h : WeakH w E) (y : Id)
-    (hr : ∀ x, x ≠ y → wrefs w' x + E'.count x ≤ wrefs w x + E.count x)
+theorem WeakH.step1 {w w' : World} {E E' : List Id} (h : WeakH ex w E) (y : Id)
+    (hr : ∀ x, x ≠ y → wrefs w' x + E'.count x = wrefs w x + E.count x)
     (hn : w.next ≤ w'.next)
     (hmo : ∀ x, x ≠ y → w'.metas x = w.metas x)
     (hhm : ∀ x, x ≠ y → (w'.heap x).hasMeta = (w.heap x).hasMeta)
     (hbl : ∀ x, x ≠ y → (w'.heap x).boxLive = true → (w.heap x).boxLive = true)
     (hy : MOK (w'.metas y) (w'.heap y).hasMeta (w'.heap y).boxLive (wrefs w' y + E'.count y))
-    (hf : w'.next ≤ y → (w'.metas y).weak = 0) : WeakH w' E' := by
-  refine ⟨fun x => ?_, fun x hx => ?_⟩
+    (hf : w'.next ≤ y → (w'.metas y).weak = 0)
+    (hgy : ex = true → (w'.metas y).weak ≤ wrefs w' y + E'.count y) : WeakH ex w' E' := by
+  refine ⟨fun x => ?_, fun x hx => ?_, fun e x => ?_⟩
   · by_cases hxy : x = y
     · subst hxy; exact hy
-    · have h0 := (h.ok x).mono (hr x hxy)
+    · have h0 := (h.ok x).mono (Nat.le_of_eq (hr x hxy))
       rw [hmo x hxy, hhm x hxy]
       exact ⟨h0.le, h0.wl, h0.rel, h0.acc, fun e hb => h0.box e (hbl x hxy hb), h0.nm⟩
   · by_cases hxy : x = y
     · subst hxy; exact hf hx
     · rw [hmo x hxy]; exact h.fresh x (Nat.le_trans hn hx)
+  · by_cases hxy : x = y
+    · subst hxy; exact hgy e
+    · rw [hmo x hxy, hr x hxy]; exact h.ge e x
 
 /-- Exchange of pointers between the in-flight list and a table / stash / weak field. -/
-theorem WeakH.exchange {w w' : World} {E : List Id} (inn out : List Id) (h : WeakH w (inn ++ E))
+theorem WeakH.exchange {w w' : World} {E : List Id} (inn out : List Id) (h : WeakH ex w (inn ++ E))
+    (hr : ∀ x, wrefs w' x + out.count x = wrefs w x + inn.count x)
+    (hm : w'.metas = w.metas) (hn : w'.next = w.next)
+    (hhm : ∀ u, (w'.heap u).hasMeta = (w.heap u).hasMeta)
+    (hbl : ∀ u, (w'.heap u).boxLive = (w.heap u).boxLive) : WeakH ex w' (out ++ E) := by
+  refine ⟨fun x => ?_, fun x hx => ?_, fun e x => ?_⟩
+  · rw [hm, hhm, hbl]
+    refine (h.ok x).mono ?_
+    have := hr x
+    simp only [List.count_append]; omega
+  · rw [hm]; exact h.fresh x (by rw [← hn]; exact hx)
+  · rw [hm]
+    have := h.ge e x
+    have := hr x
+    simp only [List.count_append] at *; omega
+
+/-- The same when pointers may get lost on the way (not exact). -/
+theorem WeakH.exchange_le {w w' : World} {E : List Id} (inn out : List Id) (h : WeakH ex w (inn ++ E))
     (hr : ∀ x, wrefs w' x + out.count x ≤ wrefs w x + inn.count x)
     (hm : w'.metas = w.metas) (hn : w'.next = w.next)
     (hhm : ∀ u, (w'.heap u).hasMeta = (w.heap u).hasMeta)
-    (hbl : ∀ u, (w'.heap u).boxLive = (w.heap u).boxLive) : WeakH w' (out ++ E) := by
-  refine ⟨fun x => ?_, fun x hx => ?_⟩
+    (hbl : ∀ u, (w'.heap u).boxLive = (w.heap u).boxLive) : WeakH false w' (out ++ E) := by
+  refine ⟨fun x => ?_, fun x hx => ?_, fun e => nomatch e⟩
   · rw [hm, hhm, hbl]
     refine (h.ok x).mono ?_
     have := hr x
@@ -55,9 +78,10 @@ theorem WeakH.exchange {w w' : World} {E : List Id} (inn out : List Id) (h : Wea
 
 /-! ### Boxes and side records -/
 
-theorem WeakH.freeBox {w : World} {E : List Id} (h : WeakH w E) (y : Id) : WeakH (w.freeBox y) E := by
-  refine h.step1 y (fun x _ => by simp) (Nat.le_refl _) (fun x _ => rfl) (fun x _ => by simp)
+theorem WeakH.freeBox {w : World} {E : List Id} (h : WeakH ex w E) (y : Id) : WeakH ex (w.freeBox y) E := by
+  refine h.step1 (w' := w.freeBox y) (E' := E) y (fun x _ => by simp) (Nat.le_refl _) (fun x _ => rfl) (fun x _ => by simp)
     (fun x hxy hb => by rw [freeBox_boxLive] at hb; simpa [hxy] using hb) ?_ (fun hy => h.fresh y hy)
+    (fun e => by simpa using h.ge e y)
   have := (h.ok y).unbox
   rw [freeBox_boxLive]; simpa using this
 
@@ -79,9 +103,10 @@ theorem dropMetadata_metas_other (w : World) (y x : Id) (h : x ≠ y) : (w.dropM
   · rfl
 
 /-- `drop_metadata` immediately followed by the release of the box. -/
-theorem WeakH.dropFree {w : World} {E : List Id} (h : WeakH w E) (y : Id) : WeakH ((w.dropMetadata y).freeBox y) E := by
-  refine h.step1 y (fun x _ => by simp) (by simp) (fun x hxy => by simp [dropMetadata_metas_other w y x hxy]) (fun x _ => by simp)
-    (fun x hxy hb => by rw [freeBox_boxLive] at hb; simpa [hxy] using hb) ?_ ?_
+theorem WeakH.dropFree {w : World} {E : List Id} (h : WeakH ex w E) (y : Id) : WeakH ex ((w.dropMetadata y).freeBox y) E := by
+  refine h.step1 (w' := (w.dropMetadata y).freeBox y) (E' := E) y (fun x _ => by simp) (by simp)
+    (fun x hxy => by simp [dropMetadata_metas_other w y x hxy]) (fun x _ => by simp)
+    (fun x hxy hb => by rw [freeBox_boxLive] at hb; simpa [hxy] using hb) ?_ ?_ ?_
   · have := (h.ok y).dropMeta
     rw [freeBox_boxLive]
     simp only [wk_freeBox_metas, wk_freeBox_hasMeta, wk_dropMetadata_hasMeta, wrefs_freeBox, wrefs_dropMetadata, if_pos]
@@ -94,10 +119,16 @@ theorem WeakH.dropFree {w : World} {E : List Id} (h : WeakH w E) (y : Id) : Weak
     rw [dropMetadata_metas_same]
     repeat' split
     all_goals exact h0
+  · intro e
+    have hg := h.ge e y
+    simp only [wk_freeBox_metas, wrefs_freeBox, wrefs_dropMetadata]
+    rw [dropMetadata_metas_same]
+    repeat' split
+    all_goals exact hg
 
 /-- The release of a box, with or without the feature `weak-ptrs`. -/
-theorem WeakH.freeStep (c : Cfg) {w : World} {E : List Id} (h : WeakH w E) (y : Id) :
-    WeakH ((if c.weak then w.dropMetadata y else w).freeBox y) E := by
+theorem WeakH.freeStep (c : Cfg) {w : World} {E : List Id} (h : WeakH ex w E) (y : Id) :
+    WeakH ex ((if c.weak then w.dropMetadata y else w).freeBox y) E := by
   split
   · exact h.dropFree y
   · exact h.freeBox y
@@ -128,9 +159,9 @@ theorem initMeta_hasMeta_other (w : World) (y x : Id) (h : x ≠ y) : ((w.initMe
   · simp [updMeta, upd, Heap.set, h]
 
 /-- `get_or_init_metadata`. -/
-theorem WeakH.initMeta {w : World} {E : List Id} (h : WeakH w E) (y : Id) : WeakH (w.initMeta y) E := by
-  refine h.step1 y (fun x _ => by simp) (by simp) (fun x hxy => initMeta_metas_other w y x hxy)
-    (fun x hxy => initMeta_hasMeta_other w y x hxy) (fun x _ hb => by simpa using hb) ?_ ?_
+theorem WeakH.initMeta {w : World} {E : List Id} (h : WeakH ex w E) (y : Id) : WeakH ex (w.initMeta y) E := by
+  refine h.step1 (w' := w.initMeta y) (E' := E) y (fun x _ => by simp) (by simp) (fun x hxy => initMeta_metas_other w y x hxy)
+    (fun x hxy => initMeta_hasMeta_other w y x hxy) (fun x _ hb => by simpa using hb) ?_ ?_ ?_
   · have := (h.ok y).init
     rw [initMeta_metas_same, initMeta_hasMeta_same, initMeta_boxLive, wrefs_initMeta]
     exact this
@@ -140,18 +171,24 @@ theorem WeakH.initMeta {w : World} {E : List Id} (h : WeakH w E) (y : Id) : Weak
     split
     · exact h.fresh y hy'
     · rfl
+  · intro e
+    rw [initMeta_metas_same, wrefs_initMeta]
+    split
+    · exact h.ge e y
+    · exact Nat.zero_le _
 
 /-- After `get_or_init_metadata` on a live box the record is there. -/
-theorem WeakH.initMeta_live {w : World} {E : List Id} (h : WeakH w E) (y : Id) (hb : (w.heap y).boxLive = true) :
+theorem WeakH.initMeta_live {w : World} {E : List Id} (h : WeakH ex w E) (y : Id) (hb : (w.heap y).boxLive = true) :
     ((w.initMeta y).metas y).live = true := by
   have h1 := (h.initMeta y).ok y
   exact (h1.acc (h1.box (initMeta_hasMeta_same w y) (by simpa using hb))).1
 
 /-- The weak count goes up by `k`: `k` new `Weak`s are in flight. -/
-theorem WeakH.incr {w : World} {E : List Id} (h : WeakH w E) (y : Id) (k : Nat) (hl : (w.metas y).live = true) (hy : y < w.next) :
-    WeakH (w.updMeta y fun m => { m with weak := m.weak + k }) (List.replicate k y ++ E) := by
-  refine h.step1 y (fun x hxy => ?_) (Nat.le_refl _) (fun x hxy => updMeta_metas_other w y x _ hxy) (fun x _ => rfl)
-    (fun x _ hb => hb) ?_ (fun hge => absurd hy (Nat.not_lt.2 hge))
+theorem WeakH.incr {w : World} {E : List Id} (h : WeakH ex w E) (y : Id) (k : Nat) (hl : (w.metas y).live = true) (hy : y < w.next) :
+    WeakH ex (w.updMeta y fun m => { m with weak := m.weak + k }) (List.replicate k y ++ E) := by
+  refine h.step1 (w' := w.updMeta y fun m => { m with weak := m.weak + k }) (E' := List.replicate k y ++ E) y (fun x hxy => ?_)
+    (Nat.le_refl _) (fun x hxy => updMeta_metas_other w y x _ hxy) (fun x _ => rfl)
+    (fun x _ hb => hb) ?_ (fun hge => absurd hy (Nat.not_lt.2 hge)) ?_
   · rw [wrefs_updMeta, List.count_append, count_replicate_self]
     have : ¬ y = x := fun e => hxy e.symm
     simp [this]
@@ -160,6 +197,12 @@ theorem WeakH.incr {w : World} {E : List Id} (h : WeakH w E) (y : Id) (k : Nat) 
     simp only [if_pos]
     have e : wrefs w y + (k + E.count y) = wrefs w y + E.count y + k := by omega
     rw [e]; exact this
+  · intro e
+    rw [updMeta_metas_same, wrefs_updMeta, List.count_append, count_replicate_self]
+    have := h.ge e y
+    simp only [if_pos]
+    show (w.metas y).weak + k ≤ _
+    omega
 
 theorem weakDrop_metas_same (w : World) (y : Id) :
     (w.weakDrop (.to y)).metas y = (if (w.metas y).weak - 1 = 0 ∧ (!(w.metas y).accessible) = true then
@@ -174,9 +217,9 @@ theorem weakDrop_metas_other (w : World) (y x : Id) (h : x ≠ y) : (w.weakDrop 
   split <;> simp [updMeta, emit, Metas.set, h]
 
 /-- `Weak::drop` of a pointer in flight. -/
-theorem WeakH.weakDrop {w : World} {E : List Id} {y : Id} (h : WeakH w (y :: E)) : WeakH (w.weakDrop (.to y)) E := by
-  refine h.step1 y (fun x hxy => ?_) (by simp) (fun x hxy => weakDrop_metas_other w y x hxy) (fun x _ => by simp)
-    (fun x _ hb => by simpa using hb) ?_ ?_
+theorem WeakH.weakDrop {w : World} {E : List Id} {y : Id} (h : WeakH ex w (y :: E)) : WeakH ex (w.weakDrop (.to y)) E := by
+  refine h.step1 (w' := w.weakDrop (.to y)) (E' := E) y (fun x hxy => ?_) (by simp) (fun x hxy => weakDrop_metas_other w y x hxy)
+    (fun x _ => by simp) (fun x _ hb => by simpa using hb) ?_ ?_ ?_
   · rw [wrefs_weakDrop, List.count_cons]
     have : ¬ y = x := fun e => hxy e.symm
     simp [this]
@@ -190,17 +233,23 @@ theorem WeakH.weakDrop {w : World} {E : List Id} {y : Id} (h : WeakH w (y :: E))
     have h0 := h.fresh y hge'
     rw [weakDrop_metas_same]
     split <;> (show (w.metas y).weak - 1 = 0; omega)
+  · intro e
+    have hg := h.ge e y
+    rw [List.count_cons_self] at hg
+    rw [weakDrop_metas_same, wrefs_weakDrop]
+    split <;> (show (w.metas y).weak - 1 ≤ _; omega)
 
-theorem WeakH.weakDropR {w : World} {E : List Id} (r : WRef) (h : WeakH w (r.ids ++ E)) : WeakH (w.weakDrop r) E := by
+theorem WeakH.weakDropR {w : World} {E : List Id} (r : WRef) (h : WeakH ex w (r.ids ++ E)) : WeakH ex (w.weakDrop r) E := by
   cases r with
   | dangling => exact h
   | to y => exact WeakH.weakDrop h
 
 /-- `j` of the `Weak`s in flight are dropped, at least one more stays. -/
-theorem WeakH.decr {w : World} {E : List Id} {y : Id} {j : Nat} (h : WeakH w (List.replicate j y ++ y :: E)) :
-    WeakH (w.updMeta y fun m => { m with weak := m.weak - j }) (y :: E) := by
-  refine h.step1 y (fun x hxy => ?_) (Nat.le_refl _) (fun x hxy => updMeta_metas_other w y x _ hxy) (fun x _ => rfl)
-    (fun x _ hb => hb) ?_ ?_
+theorem WeakH.decr {w : World} {E : List Id} {y : Id} {j : Nat} (h : WeakH ex w (List.replicate j y ++ y :: E)) :
+    WeakH ex (w.updMeta y fun m => { m with weak := m.weak - j }) (y :: E) := by
+  refine h.step1 (w' := w.updMeta y fun m => { m with weak := m.weak - j }) (E' := y :: E) y (fun x hxy => ?_) (Nat.le_refl _)
+    (fun x hxy => updMeta_metas_other w y x _ hxy) (fun x _ => rfl)
+    (fun x _ hb => hb) ?_ ?_ ?_
   · rw [wrefs_updMeta, List.count_append, count_replicate_self]
     have : ¬ y = x := fun e => hxy e.symm
     simp [this]
@@ -216,16 +265,23 @@ theorem WeakH.decr {w : World} {E : List Id} {y : Id} {j : Nat} (h : WeakH w (Li
     rw [updMeta_metas_same]
     show (w.metas y).weak - j = 0
     omega
+  · intro e
+    have hg := h.ge e y
+    rw [List.count_append, count_replicate_self, List.count_cons_self] at hg
+    simp only [if_pos] at hg
+    rw [updMeta_metas_same, wrefs_updMeta, List.count_cons_self]
+    show (w.metas y).weak - j ≤ _
+    omega
 
 /-! ### Tables, stash, weak fields -/
 
-theorem WeakH.setW {w : World} {E : List Id} (k : Nat) (v : Option WRef) (h : WeakH w (wEntry v ++ E)) (hk : k < w.W.length) :
-    WeakH (w.setW k v) (wEntry (w.getW k) ++ E) :=
-  h.exchange _ _ (fun x => Nat.le_of_eq (wrefs_setW w k v x hk)) rfl rfl (fun _ => rfl) (fun _ => rfl)
+theorem WeakH.setW {w : World} {E : List Id} (k : Nat) (v : Option WRef) (h : WeakH ex w (wEntry v ++ E)) (hk : k < w.W.length) :
+    WeakH ex (w.setW k v) (wEntry (w.getW k) ++ E) :=
+  h.exchange _ _ (fun x => wrefs_setW w k v x hk) rfl rfl (fun _ => rfl) (fun _ => rfl)
 
-theorem WeakH.setK {w : World} {E : List Id} (k : Nat) (v : Option (Id × Nat × Nat)) (h : WeakH w (kEntry v ++ E)) (hk : k < w.K.length) :
-    WeakH (w.setK k v) (kEntry (w.getK k) ++ E) :=
-  h.exchange _ _ (fun x => Nat.le_of_eq (wrefs_setK w k v x hk)) rfl rfl (fun _ => rfl) (fun _ => rfl)
+theorem WeakH.setK {w : World} {E : List Id} (k : Nat) (v : Option (Id × Nat × Nat)) (h : WeakH ex w (kEntry v ++ E)) (hk : k < w.K.length) :
+    WeakH ex (w.setK k v) (kEntry (w.getK k) ++ E) :=
+  h.exchange _ _ (fun x => wrefs_setK w k v x hk) rfl rfl (fun _ => rfl) (fun _ => rfl)
 
 theorem getW_lt {w : World} {k : Nat} {r : WRef} (h : w.getW k = some r) : k < w.W.length := by
   cases Nat.lt_or_ge k w.W.length with
@@ -237,8 +293,8 @@ theorem getK_lt {w : World} {k : Nat} {r : Id × Nat × Nat} (h : w.getK k = som
   | inl h' => exact h'
   | inr hge => simp [World.getK, List.getD_eq_getElem?_getD, List.getElem?_eq_none hge] at h
 
-theorem WeakH.toStash {w : World} {E : List Id} {y : Id} {n : Nat} (r : Ret) (h : WeakH w (List.replicate n y ++ E)) :
-    WeakH { w with ret := r, wstash := fun z => if z = y then w.wstash y + n else w.wstash z } E := by
+theorem WeakH.toStash {w : World} {E : List Id} {y : Id} {n : Nat} (r : Ret) (h : WeakH ex w (List.replicate n y ++ E)) :
+    WeakH ex { w with ret := r, wstash := fun z => if z = y then w.wstash y + n else w.wstash z } E := by
   have := h.exchange (w' := { w with ret := r, wstash := fun z => if z = y then w.wstash y + n else w.wstash z }) _ [] (fun x => by
       have h2 := wrefs_wstash w (fun z => if z = y then w.wstash y + n else w.wstash z) r x
       rw [count_replicate_self]
@@ -248,8 +304,8 @@ theorem WeakH.toStash {w : World} {E : List Id} {y : Id} {n : Nat} (r : Ret) (h 
         simp [hxy, hxy'] at h2 ⊢; omega) rfl rfl (fun _ => rfl) (fun _ => rfl)
   simpa using this
 
-theorem WeakH.fromStash {w : World} {E : List Id} (h : WeakH w E) (y : Id) (k : Nat) (r : Ret) (hk : k ≤ w.wstash y) :
-    WeakH { w with ret := r, wstash := fun z => if z = y then w.wstash y - k else w.wstash z } (List.replicate k y ++ E) := by
+theorem WeakH.fromStash {w : World} {E : List Id} (h : WeakH ex w E) (y : Id) (k : Nat) (r : Ret) (hk : k ≤ w.wstash y) :
+    WeakH ex { w with ret := r, wstash := fun z => if z = y then w.wstash y - k else w.wstash z } (List.replicate k y ++ E) := by
   refine WeakH.exchange (w := w) [] _ (by simpa using h) (fun x => ?_) rfl rfl (fun _ => rfl) (fun _ => rfl)
   have h2 := wrefs_wstash w (fun z => if z = y then w.wstash y - k else w.wstash z) r x
   rw [count_replicate_self]
@@ -261,11 +317,27 @@ theorem WeakH.fromStash {w : World} {E : List Id} (h : WeakH w E) (y : Id) (k : 
 /-- Update of the weak fields of an allocated object: the `inn` pointers come from the in-flight list, the `out` pointers go
 there. -/
 theorem WeakH.updWslots {w : World} {E : List Id} (t : Id) (F : Obj → Obj) (inn out : List Id)
-    (h : WeakH w (inn ++ E)) (ht : t < w.next)
+    (h : WeakH ex w (inn ++ E)) (ht : t < w.next)
+    (hF : ∀ x, (optIds (F (w.heap t)).wslots).count x + out.count x = (optIds (w.heap t).wslots).count x + inn.count x)
+    (hhm : (F (w.heap t)).hasMeta = (w.heap t).hasMeta) (hbl : (F (w.heap t)).boxLive = (w.heap t).boxLive) :
+    WeakH ex (w.upd t F) (out ++ E) := by
+  refine h.exchange inn out (fun x => ?_) rfl rfl (fun u => ?_) (fun u => ?_)
+  · have h1 := wrefs_upd w t F x ht
+    have h2 := hF x
+    omega
+  · by_cases hu : u = t
+    · subst hu; simpa using hhm
+    · simp [upd, Heap.set, hu]
+  · by_cases hu : u = t
+    · subst hu; simpa using hbl
+    · simp [upd, Heap.set, hu]
+
+theorem WeakH.updWslots_le {w : World} {E : List Id} (t : Id) (F : Obj → Obj) (inn out : List Id)
+    (h : WeakH ex w (inn ++ E)) (ht : t < w.next)
     (hF : ∀ x, (optIds (F (w.heap t)).wslots).count x + out.count x ≤ (optIds (w.heap t).wslots).count x + inn.count x)
     (hhm : (F (w.heap t)).hasMeta = (w.heap t).hasMeta) (hbl : (F (w.heap t)).boxLive = (w.heap t).boxLive) :
-    WeakH (w.upd t F) (out ++ E) := by
-  refine h.exchange inn out (fun x => ?_) rfl rfl (fun u => ?_) (fun u => ?_)
+    WeakH false (w.upd t F) (out ++ E) := by
+  refine h.exchange_le inn out (fun x => ?_) rfl rfl (fun u => ?_) (fun u => ?_)
   · have h1 := wrefs_upd w t F x ht
     have h2 := hF x
     omega
@@ -279,16 +351,17 @@ theorem WeakH.updWslots {w : World} {E : List Id} (t : Id) (F : Obj → Obj) (in
 /-! ### Allocation -/
 
 /-- Allocation of a box without weak fields set and without a side record. -/
-theorem WeakH.alloc {w w' : World} {E : List Id} (h : WeakH w E) (o : Obj) (hacc : (w.metas w.next).accessible = false)
+theorem WeakH.alloc {w w' : World} {E : List Id} (h : WeakH ex w E) (o : Obj) (hacc : (w.metas w.next).accessible = false)
     (hn : w'.next = w.next + 1) (hh : w'.heap = w.heap.set w.next o) (hW : w'.W = w.W) (hs : w'.wstash = w.wstash) (hK : w'.K = w.K)
     (hm : w'.metas = w.metas) (hc : cycs w'.stack = cycs w.stack) (ho : optIds o.wslots = []) (hom : o.hasMeta = false) :
-    WeakH w' E := by
+    WeakH ex w' E := by
   have hr : ∀ x, wrefs w' x = wrefs w x := by
     intro x
     unfold wrefs
     rw [hW, hs, hK, hc, wfieldRefs_alloc w w' o x hn hh ho]
-  refine h.step1 w.next (fun x _ => by rw [hr]; exact Nat.le_refl _) (by rw [hn]; exact Nat.le_succ _) (fun x _ => by rw [hm])
+  refine h.step1 (w' := w') (E' := E) w.next (fun x _ => by rw [hr]) (by rw [hn]; exact Nat.le_succ _) (fun x _ => by rw [hm])
     (fun x hx => by rw [hh, Heap.set_other _ _ _ _ hx]) (fun x hx hb => by rw [hh, Heap.set_other _ _ _ _ hx] at hb; exact hb) ?_ ?_
+    (fun e => by rw [hm, hr]; exact h.ge e w.next)
   · have h0 := h.ok w.next
     have hz := h.fresh w.next (Nat.le_refl _)
     rw [hm, hh, Heap.set_same, hr, hom]
@@ -296,17 +369,18 @@ theorem WeakH.alloc {w w' : World} {E : List Id} (h : WeakH w E) (o : Obj) (hacc
   · intro _; rw [hm]; exact h.fresh w.next (Nat.le_refl _)
 
 /-- Allocation of the box of `new_cyclic`: the side record is created with weak count 1, that `Weak` is in flight. -/
-theorem WeakH.allocCyc {w w' : World} {E : List Id} (h : WeakH w E) (o : Obj)
+theorem WeakH.allocCyc {w w' : World} {E : List Id} (h : WeakH ex w E) (o : Obj)
     (hn : w'.next = w.next + 1) (hh : w'.heap = w.heap.set w.next o) (hW : w'.W = w.W) (hs : w'.wstash = w.wstash) (hK : w'.K = w.K)
     (hm : w'.metas = w.metas.set w.next { weak := 1, accessible := true, live := true }) (hc : cycs w'.stack = cycs w.stack)
     (ho : optIds o.wslots = []) (hom : o.hasMeta = true) :
-    WeakH w' (w.next :: E) := by
+    WeakH ex w' (w.next :: E) := by
   have hr : ∀ x, wrefs w' x = wrefs w x := by
     intro x
     unfold wrefs
     rw [hW, hs, hK, hc, wfieldRefs_alloc w w' o x hn hh ho]
-  refine h.step1 w.next (fun x hx => ?_) (by rw [hn]; exact Nat.le_succ _) (fun x hx => by rw [hm]; simp [Metas.set, hx])
-    (fun x hx => by rw [hh, Heap.set_other _ _ _ _ hx]) (fun x hx hb => by rw [hh, Heap.set_other _ _ _ _ hx] at hb; exact hb) ?_ ?_
+  refine h.step1 (w' := w') (E' := w.next :: E) w.next (fun x hx => ?_) (by rw [hn]; exact Nat.le_succ _)
+    (fun x hx => by rw [hm]; simp [Metas.set, hx])
+    (fun x hx => by rw [hh, Heap.set_other _ _ _ _ hx]) (fun x hx hb => by rw [hh, Heap.set_other _ _ _ _ hx] at hb; exact hb) ?_ ?_ ?_
   · rw [hr, List.count_cons]
     have : ¬ w.next = x := fun e => hx e.symm
     simp [this]
@@ -317,5 +391,10 @@ theorem WeakH.allocCyc {w w' : World} {E : List Id} (h : WeakH w E) (o : Obj)
     simp only [Metas.set, if_pos]
     exact ⟨by show _ ≤ 1; omega, fun _ => rfl, fun _ => Or.inl rfl, fun _ => ⟨rfl, rfl⟩, fun _ _ => rfl, fun e => by cases e⟩
   · intro hge; rw [hn] at hge; exact absurd hge (Nat.not_succ_le_self _)
+  · intro e
+    rw [hm, hr, List.count_cons_self]
+    simp only [Metas.set, if_pos]
+    show 1 ≤ _
+    omega
 
 end RustCc
